@@ -5,5 +5,5 @@ From RC Require Import lib.PyStr model.WheelMetaC11.
 Extraction Language OCaml.
 Extraction "../build/ocaml/C11/model.ml" N.succ Z.succ Pos.succ Nat.add
   py_strip parse_flat post_reqs outcome find_dist_info fetch_from_wheel extract_whl
-  rfc822_fields select_fields no_headerlike_body body_harmless no_folded single_colon_nv own_entry
-  pat_of_project own_match any_match run_ops.
+  rfc822_fields select_fields body_harmless own_entry
+  root_match own_match any_match run_ops.
